@@ -27,10 +27,12 @@ PROPS = {
                             R("edit", ["insert", "embed"], [6], 4, False)]}),
     "C03": dict(
         owns=lambda kind, op, rule: op in ("delete", "erase", "slice") and rule not in ("order", "extract"),
-        tiers={"quick": [R("edit", ["delete", "erase", "slice"], [4], 1),
+        # "cutsshared" programs cut all pieces from ONE value without defensive copies (every slice must
+        # see the original features and metadata)
+        tiers={"quick": [R("edit", ["delete", "erase", "slice"], [4], 1), R("cutsshared", [], [4], 3),
                          R("edit", ["delete", "erase", "slice"], [5], 15, False)],
                "thorough": [R("edit", ["delete", "erase", "slice"], [3, 4], 1),
-                            R("edit", ["delete", "erase", "slice"], [5], 1),
+                            R("edit", ["delete", "erase", "slice"], [5], 1), R("cutsshared", [], [4, 5], 1),
                             R("edit", ["delete", "erase", "slice"], [6], 6, False)]}),
     "C04": dict(
         owns=lambda kind, op, rule: rule not in ("order", "extract"),
@@ -165,6 +167,8 @@ def run(prop, tier, seed, replay=None):
                     mc_states += s
                     mc_trans += t
                 n, events, ops, verdicts, _ = replay_cases(work, harness, cases, family + str(stride))
+                for v in verdicts:
+                    v["_file"] = cases   # case ids need only be unique within a round
                 total_cases += n
                 total_events += events
                 total_ops += ops
@@ -213,7 +217,8 @@ def finish(prop, tier, seed, conf, listed, known, work, harness, verdicts, cov, 
     confirmed = []
     # reproduce each violating case alone before reporting it (at most 5)
     for cid in sorted(viol)[:5]:
-        c = find_case(case_files, cid)
+        own = [v["_file"] for v in viol[cid] if "_file" in v][:1]
+        c = find_case(own + [f for f in case_files if f not in own], cid)
         if c is None:
             continue
         one = work.path("repro.ndjson")
